@@ -76,6 +76,7 @@ func checkC01(c *Ctx) {
 		"K-C01-sign: r = (e + x1) mod n with (x1,_) = [k]G and s = ((1+d)^-1 (k - r d)) mod n (canonical form), k = randFieldElement(curve, random) drawn inside the retry loop; r=0, r+k=n and s=0 lead back to a fresh draw; reader errors are returned",
 		"K-C01-nonce: randFieldElement reads BitSize/8+8 bytes from the caller's reader with io.ReadFull and returns (bytes mod (n-1)) + 1",
 		"K-C01-za: ZA hashes ENTL(16-bit big-endian bit length)||ID||a||b||Gx||Gy||xA||yA in that order with xA,yA left-padded to 32 bytes; uid >= 8192 bytes rejected; e = SM3(ZA||M)",
+		"T-C03-special: the curve addition used for [s]G + [t]P handles P = Q (by doubling, decided on values) and infinity before the chord formulas; zForAffine treats exactly (0,0) as infinity (the rule of C03, evaluated here too: completeness of verification depends on it)",
 		"G-C01-der: (*PublicKey).Verify returns false unless the signature is exactly one DER SEQUENCE of two INTEGERs with no trailing bytes, then defers to Sm2Verify with the default ID; Sign encodes with the same two-INTEGER SEQUENCE",
 		"G-C01-consumers: repo callers of the verify functions reject on a false result")
 	c.NotDec = append(c.NotDec, "that (r,s) numerically equals the standard's value (group arithmetic is C03)", "completeness as a mathematical fact", "distinctness of r for distinct nonces")
@@ -93,6 +94,11 @@ func checkC01(c *Ctx) {
 	c01ZA(c)
 	c01DER(c)
 	c01Consumers(c)
+	// the verifier computes [s]G + [t]P with the curve's Add: its special cases (P = Q, infinity) are part of
+	// completeness — a valid signature whose two summands coincide must still verify
+	c03Tables(c)
+	c03Formulas(c)
+	c03Special(c)
 	fixedWidthHashed(c, "P-WIDTH-hash")
 }
 
